@@ -608,8 +608,9 @@ struct Calib { double max_rank[64] = {0}, max_quant[64] = {0}; };
 Calib& calib() { static Calib c; return c; }
 
 template <typename T> void prop_acc_t(const Case& cs) {
-  static const uint16_t ks[] = {10, 20, 50, 100, 200, 500, 1000};
-  const uint16_t k = ks[static_cast<uint64_t>(cs.get("k", 3)) % 7];
+  // the upper half of the 16-bit k range is part of the domain: 2k does not fit 16 bits there
+  static const uint16_t ks[] = {10, 20, 50, 100, 200, 500, 1000, 32768, 32800, 65535};
+  const uint16_t k = ks[static_cast<uint64_t>(cs.get("k", 3)) % 10];
   uint64_t n = static_cast<uint64_t>(std::min<int64_t>(1000000, std::max<int64_t>(100000, cs.get("n", 100000))));
   const int order = static_cast<int>(static_cast<uint64_t>(cs.get("order", 0)) % 4);
   const int dist = static_cast<int>(static_cast<uint64_t>(cs.get("dist", 0)) % 4);
@@ -717,6 +718,7 @@ template <typename T> void prop_acc_t(const Case& cs) {
   if (parts > 1) vf::label("acc-merged");
   if (qevery) vf::label("acc-interleaved-queries");
   if (n >= 500000) vf::label("acc-n>=5e5");
+  if (k >= 32768) vf::label("acc-k>=32768");
   vf::nontrivial();
   VF_CHECK_K(!qfail.set, "quantile-accuracy", KEY_QACC, qfail.msg);
 }
@@ -727,7 +729,7 @@ void prop_acc(const Case& cs) {
 
 // ================================================================ generators
 rc::Gen<int64_t> k_gen() {
-  return rc::gen::weightedOneOf<int64_t>({{6, vf::pick({10, 11, 20, 29, 30, 31, 50, 100, 200})}, {3, vf::range(10, 300)}, {1, vf::pick({500, 1000, 1000, 4000})}});
+  return rc::gen::weightedOneOf<int64_t>({{6, vf::pick({10, 11, 20, 29, 30, 31, 50, 100, 200})}, {3, vf::range(10, 300)}, {1, vf::pick({500, 1000, 1000, 4000, 32767, 32768, 40000, 65535})}});
 }
 
 rc::Gen<Case> gen_main() {
@@ -784,7 +786,7 @@ rc::Gen<Case> gen_smallk() {
 
 rc::Gen<Case> gen_acc() {
   using namespace vf;
-  return make_case({{"type", range(0, 1)}, {"k", range(0, 6)}, {"n", rc::gen::weightedOneOf<int64_t>({{3, range(100000, 300000)}, {1, range(300000, 1000000)}})},
+  return make_case({{"type", range(0, 1)}, {"k", rc::gen::weightedOneOf<int64_t>({{7, range(0, 6)}, {2, range(7, 9)}})}, {"n", rc::gen::weightedOneOf<int64_t>({{3, range(100000, 300000)}, {1, range(300000, 1000000)}})},
                     {"order", range(0, 3)}, {"dist", range(0, 3)}, {"parts", range(0, 7)}, {"tree", range(0, 2)},
                     {"qevery", rc::gen::weightedOneOf<int64_t>({{2, rc::gen::just<int64_t>(0)}, {1, range(1, 5000)}})}, {"seed", range(1, 1 << 30)}},
                    rc::gen::just(std::vector<Op>{}));
